@@ -48,6 +48,23 @@ def replay(cases):
         exp = c["day"] * 86400 + c["tod"] / 1000.0
         if abs(a - exp) > 2e-6:
             viol.append(("toAbsTime", "toAbsTime(%s) = %r, specification says %r" % (_fields(t), a, exp), c["day"]))
+        # ---- the fields of a timestamp are public: the same OBJECT, edited, denotes the instant of its current fields
+        te = ObsTime(y, m, d, h, mi, s, ms)
+        te.toAbsTime()
+        which = (c["day"] + h) % 3
+        if which == 0:
+            te.ms = (ms + 500) % 1000
+            exp2 = exp + (te.ms - ms) / 1000.0
+        elif which == 1:
+            te.sec = (s + 7) % 60
+            exp2 = exp + (te.sec - s)
+        else:
+            te.hour = (h + 5) % 24
+            exp2 = exp + 3600 * (te.hour - h)
+        a2 = te.toAbsTime()
+        if abs(a2 - exp2) > 2e-6:
+            viol.append(("toAbsTime/edited-object", "toAbsTime of %s after editing the object %s = %r, specification says %r"
+                         % ([y, m, d, h, mi, s, ms], _fields(te), a2, exp2), c["day"]))
         # ---- and back
         nd = c["succ"]["D1"]["dt"]
         alt = {(y, m, d): 0, tuple(nd): 1}
